@@ -769,6 +769,9 @@ func (d *def) initHash(name string, parent px.Type) *types.Hash {
 
 // ---- running against pcore ----------------------------------------------------------------------------------------
 
+// issues raised during the current op whose message has an unbound argument (ops of one worker run one after the other)
+var msgProblems []string
+
 func classify(e interface{}) (cls string) {
 	switch e := e.(type) {
 	case issue.Reported:
@@ -778,8 +781,12 @@ func classify(e interface{}) (cls string) {
 				cls = "fault"
 			}
 		}()
-		if strings.Contains(e.Error(), "runtime error:") {
+		msg := e.Error()
+		if strings.Contains(msg, "runtime error:") {
 			return "fault"
+		}
+		if strings.Contains(msg, "(MISSING)") || strings.Contains(msg, "%!") {
+			msgProblems = append(msgProblems, string(e.Code())+": "+msg)
 		}
 		return "reported " + strings.TrimPrefix(string(e.Code()), "PCORE_")
 	case error:
@@ -1307,6 +1314,9 @@ func exec(c px.Context, op string, args []sx.Sexp) core.Result {
 	if op == "tparam" {
 		return execTParam(c, args)
 	}
+	if op == "msg" {
+		return execMsg(c, args)
+	}
 	if op != "obj" || len(args) != 2 || !args[0].IsList || !args[1].IsList {
 		return core.Result{Out: "bad-op", Pred: "FAIL harness-bad-op " + op}
 	}
@@ -1327,6 +1337,7 @@ func exec(c px.Context, op string, args []sx.Sexp) core.Result {
 		return core.Result{Out: "bad-op", Pred: "n/a"}
 	}
 	n := atomic.AddInt64(&opCounter, 1)
+	msgProblems = nil
 	var rt, rh *run
 	var fails []failure
 	// the two renderings, each in its own forked context (fresh loader)
@@ -1353,6 +1364,9 @@ func exec(c px.Context, op string, args []sx.Sexp) core.Result {
 	if h := rh.line(); h != out {
 		fails = append(fails, failure{"renderings-differ", "as text: " + out + " | as init-hash: " + h})
 	}
+	if len(msgProblems) > 0 {
+		fails = append(fails, failure{"message-args", "an issue renders with an unbound argument: " + msgProblems[0]})
+	}
 	created := 0
 	for _, o := range rt.objs {
 		if o != nil {
@@ -1372,7 +1386,7 @@ func exec(c px.Context, op string, args []sx.Sexp) core.Result {
 // one class is reported per op: the most specific first
 func classRank(c string) int {
 	for i, k := range []string{"fault", "schema-admitted-rejected", "renderings-differ", "new-rejected", "get-wrong", "get-constant", "pos-named-differ",
-		"inithash-roundtrip", "equality-wrong", "equality-include-type", "subtype-not-instance", "ancestor-instance-of-sub", "unrelated-instance"} {
+		"inithash-roundtrip", "equality-wrong", "equality-include-type", "subtype-not-instance", "ancestor-instance-of-sub", "unrelated-instance", "message-args"} {
 		if c == k {
 			return i
 		}
